@@ -136,7 +136,7 @@ func runSweep(r *ev.Run, w *world, part, parts int) {
 			r.Outcome("sweep/exempt-acted/" + cmdName(cmdID) + "/" + effectClasses(eff))
 			return
 		}
-		r.Violate(fmt.Sprintf("acted-on-unsolicited/id=%s/cmd=%s/sendlogs=%v", idc.name, cmdName(cmdID), w.sendLogs),
+		r.Violate(fmt.Sprintf("acted-on-unsolicited/id=%s/cmd=%s/sendlogs=%s", idc.name, cmdName(cmdID), w.flagTag()),
 			fmt.Sprintf("agent A sent command %d (%s) with request id %08x (%s; outstanding at A is only %08x) and the teamserver acted on it: %s",
 				cmdID, label, idc.id, idc.name, idS, strings.Join(eff, "; ")),
 			map[string]any{"command": cmdID, "request_id": idc.id, "body": label, "send_logs": w.sendLogs})
@@ -237,7 +237,7 @@ func runTable(r *ev.Run, w *world) {
 			continue
 		}
 		if len(eff) > 0 && !ex {
-			r.Violate(fmt.Sprintf("acted-on-unsolicited/id=other-agents/cmd=%s/sendlogs=%v", cmdName(rp.cmd), w.sendLogs),
+			r.Violate(fmt.Sprintf("acted-on-unsolicited/id=other-agents/cmd=%s/sendlogs=%s", cmdName(rp.cmd), w.flagTag()),
 				fmt.Sprintf("%s reply with an id outstanding at A, sent by B, was acted on: %s", rp.name, strings.Join(eff, "; ")), detail)
 			continue
 		}
@@ -278,7 +278,7 @@ func runTable(r *ev.Run, w *world) {
 		if len(eff) > 0 && !replayed {
 			// the final reply is refused a second time but the id still opens the gate for
 			// other callbacks: same class as any other unsolicited id
-			r.Violate(fmt.Sprintf("acted-on-unsolicited/id=completed/cmd=OUTPUT/sendlogs=%v", w.sendLogs),
+			r.Violate(fmt.Sprintf("acted-on-unsolicited/id=completed/cmd=OUTPUT/sendlogs=%s", w.flagTag()),
 				fmt.Sprintf("after the final %s reply for request %08x had been processed, COMMAND_OUTPUT with that id was acted on: %s", rp.name, id, strings.Join(eff, "; ")), detail)
 		}
 		if len(eff) == 0 && !replayed {
